@@ -747,7 +747,15 @@ def d2_roles(ctx, idx):
             v = ci.attrs.get('default_comparer')
             name = q.split('.')[-1]
             if v is None:
-                r.undecided(name + '.default_comparer', 'class attribute vanished', ci.loc)
+                owner, inherited = idx.lookup_attr(ci, 'default_comparer')
+                if owner is not None:
+                    r.violation(name + '.default_comparer', '%s no longer defines its own default_comparer: the attribute now resolves '
+                                'through the MRO to %s.default_comparer, and set_default_comparer writes `cls.default_comparer` on ONE class '
+                                '-- so %s.set_default_comparer(...) silently changes the default comparison of every %s as well (the '
+                                'documented per-class default is lost)' % (name, owner.name, owner.name, name), ci.loc,
+                                expected='default_comparer = staticmethod(equality_comparer) in the body of %s' % name)
+                else:
+                    r.undecided(name + '.default_comparer', 'class attribute vanished', ci.loc)
                 continue
             b = nf.match('staticmethod(_C)', v)
             if b is not None and isinstance(b['_C'], ast.Name) and _is_equality_comparer(idx, ci.module, b['_C'].id):
@@ -1878,6 +1886,7 @@ MUTANTS = [
            "        def _within_tolerance(x, y):\n            return within_tolerance(y, x, self.config['tolerance'])", 'D2'),
     Mutant('matrix-utils-fixed-tolerance', MG, "        def _within_tolerance(x, y):\n            return within_tolerance(x, y, self.config['tolerance'])",
            "        def _within_tolerance(x, y):\n            return within_tolerance(x, y, '0.01%')", 'D2'),
+    Mutant('seeded-matrixgrader-default-comparer-shadow-removed', MG, "    default_comparer = staticmethod(equality_comparer)\n", "", 'D2'),
     Mutant('compare-evaluations-zip-swapped', MH, "                result = comparer(compare_params_eval, student_eval, utils)",
            "                result = comparer(student_eval, compare_params_eval, utils)", 'D2'),
     Mutant('correlated-swapped', MH, "            result = comparer(compare_params_evals, student_evals, utils)",
